@@ -244,6 +244,9 @@ def _mk_ci(k):
 
 create_index2, create_index3 = _mk_ci(2), _mk_ci(3)
 CONTRACTS += [create_index2, create_index3]
+from contracts import thorough as _thorough      # noqa: E402
+if _thorough():
+    CONTRACTS += [_mk_ci(4), _mk_ci(5)]
 
 
 # ---------------------------------------------------------------------------------------------
